@@ -45,6 +45,7 @@ pub struct OpW {
     pub counters: u32,
     pub fresh_lookup: u32,
     pub iter_advance: u32,
+    pub insert_batch: u32,
 }
 
 impl Default for OpW {
@@ -67,6 +68,7 @@ impl Default for OpW {
             counters: 1,
             fresh_lookup: 0,
             iter_advance: 0,
+            insert_batch: 0,
         }
     }
 }
@@ -114,6 +116,7 @@ pub fn profile_for(prop: &str, thorough: bool) -> Profile {
         }
         "C03" => {
             p.cap = CapMode::Mixed;
+            p.w.insert_batch = 3;
             p.w.warm_insert = 6;
             p.w.synced_insert = 14;
             p.w.invalidate = 10;
@@ -178,6 +181,7 @@ pub fn profile_for(prop: &str, thorough: bool) -> Profile {
             p.w.enter_beyond = 7;
         }
         "C12" | "C13" => {
+            p.w.insert_batch = 8;
             p.cap = CapMode::Bounded;
             p.sync_every_op = true;
             p.sync_plain = true;
@@ -196,6 +200,10 @@ pub fn profile_for(prop: &str, thorough: bool) -> Profile {
             p.w.warm_insert = 8;
         }
         "C15" => {
+            p.w.burst = 3;
+            p.burst_sizes = vec![64, 65, 70];
+            p.w.fresh_lookup = 4;
+            p.w.enter_beyond = 8;
             p.cap = CapMode::Bounded;
             p.w.get = 30;
             p.w.warm_insert = 8;
@@ -250,6 +258,8 @@ pub enum RawOp {
     Counters,
     FreshLookup { sel: u16, contains: bool },
     IterAdvance { after: u8, sel: u8 },
+    /// concurrent cache: leave the periodic-sync window, queue 2-4 inserts, then sync()
+    InsertBatch { items: [(u16, u8); 4], n: u8 },
 }
 
 const DURS: [Option<u64>; 9] = [
@@ -324,6 +334,7 @@ fn raw_op(w: &OpW) -> BoxedStrategy<RawOp> {
     add(w.burst, (any::<u8>(), any::<u8>(), any::<bool>()).prop_map(|(n, w, gets)| RawOp::Burst { n, w, gets }).boxed());
     add(w.warm_insert, (any::<u16>(), any::<u8>(), any::<u8>()).prop_map(|(k, w, n)| RawOp::WarmInsert { k, w, n }).boxed());
     add(w.counters, Just(RawOp::Counters).boxed());
+    add(w.insert_batch, (any::<[(u16, u8); 4]>(), any::<u8>()).prop_map(|(items, n)| RawOp::InsertBatch { items, n }).boxed());
     add(w.iter_advance, (any::<u8>(), any::<u8>()).prop_map(|(after, sel)| RawOp::IterAdvance { after, sel }).boxed());
     add(w.fresh_lookup, (any::<u16>(), any::<bool>()).prop_map(|(sel, contains)| RawOp::FreshLookup { sel, contains }).boxed());
     proptest::strategy::Union::new_weighted(v).boxed()
@@ -475,8 +486,14 @@ pub fn build_case(p: &Profile, rc: RawCfg, raw_ops: Vec<RawOp>) -> Case {
             RawOp::Burst { n, w, gets } => {
                 if !p.burst_sizes.is_empty() {
                     let n = p.burst_sizes[idx(n as u32, 256, p.burst_sizes.len() as u32) as usize];
-                    let w = [1u32, 1, 0, 2][idx(w as u32, 256, 4) as usize];
-                    push(&mut ops, Op::Burst { n, w, gets })
+                    let wsel = idx(w as u32, 256, 6);
+                    if wsel == 5 && kind == Kind::Sync {
+                        // a run of invalidations of present keys, no sync in between
+                        push(&mut ops, Op::BurstInvalidate { n })
+                    } else {
+                        let w = [1u32, 1, 0, 2, 1, 1][wsel as usize];
+                        push(&mut ops, Op::Burst { n, w, gets })
+                    }
                 }
             }
             RawOp::WarmInsert { k, w, n } => {
@@ -488,6 +505,20 @@ pub fn build_case(p: &Profile, rc: RawCfg, raw_ops: Vec<RawOp>) -> Case {
                 push(&mut ops, Op::Insert { k, w: wmap(k, w) })
             }
             RawOp::Counters => push(&mut ops, Op::Counters),
+            RawOp::InsertBatch { items, n } => {
+                if kind == Kind::Sync {
+                    ops.push(Op::EnterBeyond);
+                    let n = 2 + idx(n as u32, 256, 3) as usize;
+                    for (k, w) in items.iter().take(n) {
+                        let k = kmap(*k);
+                        ops.push(Op::Insert { k, w: wmap(k, *w) });
+                    }
+                    ops.push(Op::Sync);
+                } else {
+                    let k = kmap(items[0].0);
+                    push(&mut ops, Op::Insert { k, w: wmap(k, items[0].1) })
+                }
+            }
             RawOp::IterAdvance { after, sel } => {
                 let ns = adv_choices[idx(sel as u32, 256, adv_choices.len() as u32) as usize];
                 push(&mut ops, Op::IterAdvance { after: after % 4, ns })
